@@ -23,6 +23,8 @@ type Profile struct {
 	Preambles [][]Op
 	// PreambleOneIn: a preamble is used in one of this many cases (default 2)
 	PreambleOneIn int
+	// EmptyBegin: one Begin in four names no table at all
+	EmptyBegin bool
 }
 
 var keyAlphabet = []byte{0x00, 0x01, 0x02, 'a', 0xff}
@@ -108,6 +110,9 @@ func genOp(p Profile, ntables int) *rapid.Generator[Op] {
 		switch o.K {
 		case opBegin:
 			o.Ts = rapid.SliceOfN(rapid.IntRange(0, ntables-1), 1, 4).Draw(t, "ts")
+			if p.EmptyBegin && rapid.IntRange(0, 3).Draw(t, "noTables") == 0 {
+				o.Ts = []int{}
+			}
 		case opInsert, opInsertWatch, opModify, opDelete, opCAS, opCAD, opWriteFinished:
 			o.W = rapid.IntRange(0, 1).Draw(t, "w")
 			o.ID = genID(p.FewKeys).Draw(t, "id")
@@ -184,6 +189,7 @@ func genCase(t *rapid.T, p Profile) Case {
 	if p.TwoTxns && rapid.Bool().Draw(t, "twoTxns") {
 		c.MaxTxns = 2
 	}
+	c.EmptyBegin = p.EmptyBegin
 	if p.GC > 0 && rapid.IntRange(0, 99).Draw(t, "gc") < p.GC {
 		c.GC = true
 	}
